@@ -207,3 +207,7 @@ mod tests {
         assert_eq!(BitSet32::from_mask(0).complement(32), BitSet32::from_mask(0xFFFFFFFF));
     }
 }
+
+#[cfg(kani)]
+#[path = "/verif/contracts/kani/bitset.rs"]
+mod verif_kani;
